@@ -67,6 +67,27 @@ static bool rx_search(int which, char const *subject) { g_rx_search_calls++; int
 char g_other_word[4];
 static char const *method_word(char const *method) { g_method_cmp_calls++; return g_method_eq ? method : g_other_word; }
 '''
+
+MP = 'src/mount_point.cpp'
+PRE += r'''
+/* ---- mount_point::match: the three patterns are oracles (whole-string match proved for regex::match above); the sub-path handed to the application is recorded as
+ *      (subject, group): group -1 = the whole string, otherwise capture number `group` of the match of that subject */
+typedef enum { match_path_info, match_script_name } selection_type;      /* as in cppcms/mount_point.h (order checked by the region test below) */
+#define RX_host_ 0
+#define RX_script_name_ 1
+#define RX_path_info_ 2
+struct mpoint { bool host_empty, script_name_empty, path_info_empty; int group_; selection_type selection_; };
+struct msel { char const *subj; int grp; int which; };
+struct mres { bool first; struct msel second; };
+struct cm { char const *subj; int which; };
+int g_mp_calls[3], g_mp_search; bool g_mp_ok[3]; char const *g_mp_subj[3];
+static bool rxm(int which, char const *subject) { if(g_mp_calls[which] < 2) g_mp_calls[which]++; g_mp_subj[which] = subject; return g_mp_ok[which]; }
+static bool rxm_m(int which, char const *subject, struct cm *m) { bool r = rxm(which, subject); if(r) { m->subj = subject; m->which = which; } return r; }
+static bool rxs(int which, char const *subject) { g_mp_search = 1; int r; return r != 0; }
+static struct msel whole_of(char const *s) { struct msel r; r.subj = s; r.grp = -1; r.which = -1; return r; }
+static struct msel group_of(struct cm m, int g) { struct msel r; r.subj = m.subj; r.grp = g; r.which = m.which; return r; }
+#define MP_PATTERN_OK(w, subj_) (g_mp_calls[w] == 1 && g_mp_ok[w] && g_mp_subj[w] == (subj_))
+'''
 functions = [
     dict(cname='regex_match_marks', file=R, locate=r'bool regex::match\(char const \*begin,char const \*end,std::vector<std::pair<int,int> > &marks,int\s*\) const',
          sig='bool regex_match_marks(struct regex_data *d, char const *begin, char const *end, struct marks *marks)', throw_ret='0',
@@ -138,23 +159,47 @@ __CPROVER_ensures((__CPROVER_return_value && self->match_method_ == 2) ==> (meth
 /* and nothing that matches is turned away */
 __CPROVER_ensures(!__CPROVER_return_value ==> ((self->match_method_ == 1 && (method == 0 || !g_method_eq)) || (self->match_method_ == 2 && (method == 0 || !g_rx_res[RX_METHOD])) || !g_rx_res[RX_PATH]))
 '''),
+    dict(cname='mp_match', file=MP, locate=lit('std::pair<bool,std::string> mount_point::match(char const *h,char const *s,char const *p) const'),
+         sig='void mp_match(struct mpoint *self, char const *h, char const *s, char const *p, struct mres *out)', members=['group_', 'selection_'],
+         rewrites=[(r'std::pair<bool,std::string> res;', 'struct mres res = {0, {0, 0, 0}};', 1), (r'return res;', '{ *out = res; return; }', 1), (r'(\w+_)\.empty\(\)', r'self->\1empty', 1),
+                   (r'booster::regex_match\((\w),(\w+_)\)', r'rxm(RX_\2, \1)', 0), (r'booster::regex_match\((\w),m,(\w+_)\)', r'rxm_m(RX_\2, \1, &m)', 0),
+                   (r'booster::regex_search\((\w),(?:m,)?(\w+_)\)', r'rxs(RX_\2, \1)', 0), (r'booster::cmatch m;', 'struct cm m = {0, 0};', 0),
+                   (r'res\.second\s*=\s*(\w);', r'res.second = whole_of(\1);', 0), (r'res\.second\s*=\s*m\[([\w>-]+)\];', r'res.second = group_of(m, \1);', 0)],
+         contract=r'''
+__CPROVER_requires(__CPROVER_r_ok(self, sizeof(*self)) && __CPROVER_w_ok(out, sizeof(*out)) && g_mp_calls[0] == 0 && g_mp_calls[1] == 0 && g_mp_calls[2] == 0 && g_mp_search == 0 &&
+                   (self->selection_ == match_path_info || self->selection_ == match_script_name))
+__CPROVER_assigns(*out, __CPROVER_object_whole(g_mp_calls), __CPROVER_object_whole(g_mp_subj), g_mp_search)
+/* C20: a mount point is selected only if EVERY configured pattern matched the ENTIRE respective string (host against the host, script name against SCRIPT_NAME, path against PATH_INFO; never a search) ... */
+__CPROVER_ensures(g_mp_search == 0)
+__CPROVER_ensures(out->first ==> ((self->host_empty || MP_PATTERN_OK(RX_host_, h)) && (self->script_name_empty || MP_PATTERN_OK(RX_script_name_, s)) && (self->path_info_empty || MP_PATTERN_OK(RX_path_info_, p))))
+/* ... the sub-path handed on is the selected part: whole when its pattern is empty or group 0 is configured, otherwise exactly capture `group_` of the match of the selected part against its own pattern */
+__CPROVER_ensures((out->first && self->selection_ == match_path_info) ==> (out->second.subj == p && ((self->path_info_empty || self->group_ == 0) ? out->second.grp == -1 : (out->second.grp == self->group_ && out->second.which == RX_path_info_))))
+__CPROVER_ensures((out->first && self->selection_ == match_script_name) ==> (out->second.subj == s && ((self->script_name_empty || self->group_ == 0) ? out->second.grp == -1 : (out->second.grp == self->group_ && out->second.which == RX_script_name_))))
+/* ... and a request that matches every configured pattern is not turned away */
+__CPROVER_ensures(!out->first ==> ((!self->host_empty && !g_mp_ok[RX_host_]) || (!self->script_name_empty && !g_mp_ok[RX_script_name_]) || (!self->path_info_empty && !g_mp_ok[RX_path_info_])))
+'''),
 ]
 
+REPLAY20 = dict(replay='c20:routing', replay_link=['-fno-access-control', '-L{BUILD}', '-lcppcms', '-L{BUILD}/booster', '-lbooster', '-lpthread', '-lpcre'], replay_exhaustive='the real booster::regex, mount_point::match and url_dispatcher against std::regex whole-string matching: 360 mount-point configurations (host / script / path patterns, group 0..2, both selections) x 540 request triples, and a dispatcher with 8 handlers (method filters: none, word, expression) x 12 methods x 17 paths (prefix / suffix / substring look-alikes of every pattern and method): selected iff everything matches as a whole, first in registration order, captured group as argument')
 jobs = [
-    dict(name='regex_match_marks', props=P, enforce='regex_match_marks', harness=r'''
+    dict(name='regex_match_marks', props=P, **REPLAY20, enforce='regex_match_marks', harness=r'''
     struct regex_data d; SYM_BUF(char, s, n, BUF_CAP); struct marks m; int k; g_k = k; g_exec_called = 0; verif_thrown = 0;
     regex_match_marks(&d, s, s + n, &m); VERIF_REACH;'''),
-    dict(name='regex_match', props=P, enforce='regex_match', harness=r'''
+    dict(name='regex_match', props=P, **REPLAY20, enforce='regex_match', harness=r'''
     struct regex_data d; SYM_BUF(char, s, n, BUF_CAP); g_exec_called = 0; verif_thrown = 0;
     regex_match(&d, s, s + n); VERIF_REACH;'''),
-    dict(name='regex_assign_anchored', props=P, enforce='regex_assign_anchored', harness='g_anch_state = 0; g_anch_bad = 0; g_are_set = 0; verif_thrown = 0; regex_assign_anchored(); VERIF_REACH;'),
-    dict(name='dispatcher_dispatch', props=P, enforce='dispatcher_dispatch', harness=r'''
+    dict(name='regex_assign_anchored', props=P, **REPLAY20, enforce='regex_assign_anchored', harness='g_anch_state = 0; g_anch_bad = 0; g_are_set = 0; verif_thrown = 0; regex_assign_anchored(); VERIF_REACH;'),
+    dict(name='dispatcher_dispatch', props=P, **REPLAY20, enforce='dispatcher_dispatch', harness=r'''
     bool m[MAX_OPTS]; __CPROVER_array_copy(g_opt_match, m); unsigned n; __CPROVER_assume(n <= MAX_OPTS); g_opt_n = n; int k; __CPROVER_assume(k >= 0); g_k = k;
     g_hit = 0; g_tried_after_hit = 0; g_tried_upto = 0;
     dispatcher_dispatch(); VERIF_REACH;'''),
-    dict(name='option_matches', props=P, enforce='option_matches', harness=r'''
+    dict(name='option_matches', props=P, **REPLAY20, enforce='option_matches', harness=r'''
     struct ropt o; int r0, r1, me, nm; g_rx_res[0] = r0 != 0; g_rx_res[1] = r1 != 0; g_method_eq = me != 0; g_rx_match_calls[0] = 0; g_rx_match_calls[1] = 0; g_rx_search_calls = 0; g_method_cmp_calls = 0;
     char pth[4], mth[4]; char const *mp = mth; if(!nm) mp = 0; option_matches(&o, pth, mp); VERIF_REACH;'''),
+    dict(name='mp_match', props=P, **REPLAY20, enforce='mp_match', harness=r'''
+    struct mpoint m; int r0, r1, r2; g_mp_ok[0] = r0 != 0; g_mp_ok[1] = r1 != 0; g_mp_ok[2] = r2 != 0; g_mp_calls[0] = 0; g_mp_calls[1] = 0; g_mp_calls[2] = 0; g_mp_search = 0;
+    int sel; m.selection_ = sel ? match_script_name : match_path_info; char hb[4], sb[4], pb[4]; struct mres out;
+    mp_match(&m, hb, sb, pb, &out); VERIF_REACH;'''),
 ]
 
 UNIT = dict(
